@@ -1,15 +1,15 @@
-\* quick: 8 majors x 9 additional-information classes = 72 representatives per byte (5 257 prefixes, 378 576 strings)
+\* C12 quick: verdict table, 8 majors x 9 additional-information classes = 72 representatives per byte (5 257 prefixes, 378 576 strings) + shapes
 SPECIFICATION TabSpec
 CONSTANTS
   AIs = {0, 1, 2, 23, 24, 25, 27, 28, 31}
   Ints <- DeepInts
   Strs <- DeepStrs
   Tags <- DeepTags
+  Simples <- NoSimples
   MaxStack = 1
   MaxNodes = 1
   MaxDepth = 1
   MaxArr = 0
   MaxPairs = 0
   AllowWrap = FALSE
-  Simples <- NoSimples
-INVARIANTS Emit DecOnlyWellFormed ReEncodeIffCanonical DecEncDec CanonicalIsWellFormed ItemLenStable
+INVARIANTS Emit ItemLenStable
